@@ -4,9 +4,13 @@ import MakoModel.Generated.Pipeline
 
 Strings are `List Char`.  Three parts:
 
-* (a) `createFilterCallable` / `visitExpression` / `defFinishExpr` – string-level transcription of
-  `mako/codegen.py` (`create_filter_callable`, `visitExpression`, `write_def_finish`), parameterised by the
-  regenerated `DEFAULT_ESCAPES`; and a small semantic layer (`Tm`, `evalPipeline`).
+* (a) `createFilterCallable` / `visitExpression` / `defFinishExpr` / `cacheDecoratorExpr` / `callTagExpr` /
+  `blockCallSiteExpr` – string-level transcription of `mako/codegen.py` (`create_filter_callable`,
+  `visitExpression`, `write_def_finish`, `write_cache_decorator`, `visitCallTag`, `visitBlockTag`), parameterised
+  by the regenerated `DEFAULT_ESCAPES` and call-regex flag; `contextNames` (the table's second role in
+  `mako/parsetree.py`); and a small semantic layer (`Tm`, `evalPipeline`).
+  `write_def_finish` / `write_cache_decorator` are also modelled, at the level of filter *functions*, in
+  `MakoModel/Filters/Sites.lean` (property C10); `MakoModel/Pipeline/LemmasSites.lean` relates the two.
 * (b) `parseUntilText` / `matchExpression` – deterministic transcription of the regex loop of
   `mako/lexer.py` (`parse_until_text`, `match_expression`, the empty-match `+1` rule of `match_reg`).
   All regexes used there look only *forward* from `match_position`, so the model works on the suffix
@@ -139,6 +143,14 @@ def visitExpression (escapes : Str) (args : List Str) (text : Str) (cfg : Cfg) :
 def defFinishExpr (defArgs bufferFilters : List Str) (buffered cached : Bool) (s : Str) (cfg : Cfg) : Str :=
   let s1 := if !defArgs.isEmpty then createFilterCallable defArgs s false cfg else s
   if buffered && !cached then createFilterCallable bufferFilters s1 false cfg else s1
+
+/-- `visitBlockTag`: the argument of `__M_writer(…)` written at the position of a block, `<call> or ''`, where
+`call` is `__M_anon_<line>()` resp. `context['self'].<name>(**pageargs)`: what the block function returns is
+written in place (a buffered block returns its content, any other block has written it and returns `''`) -/
+def blockCallSiteExpr (call : Str) : Str := call ++ [' ', 'o', 'r', ' ', '\'', '\'']
+
+/-- Python's `v or ''` on a str value -/
+def pyOrEmpty (v : Str) : Str := if v = [] then [] else v
 
 /-- `write_cache_decorator`: what the caching wrapper of a `cached="True"` def returns (buffered) or writes
 (not buffered) around `s` = the `cache._ctx_get_or_create(…)` call; the wrapped function itself ends with
